@@ -32,6 +32,20 @@ def cases(tier, rng):
                         ops.append("recv")
                 out.append("q%d.%s sock REQ / %s" % (k, peer, " / ".join(ops)))
                 k += 1
+            # two servers: accepted requests alternate between them; a refused (out-of-turn) call changes nothing,
+            # in particular not whose turn it is
+            ops = ["attach a REP", "attach b REP"]
+            for c in "ab":
+                ops.append("feed %s %s" % (c, W.tok(b"".join(W.msg([b"", b"%s%d" % (c.encode(), i)]) for i in range(7)))))
+            j = 0
+            for c in seq:
+                if c == "s":
+                    ops += ["send %s" % W.tok(b"req%d" % j), "wire a", "wire b"]
+                    j += 1
+                else:
+                    ops.append("recv")
+            out.append("m%d sock REQ / %s" % (k, " / ".join(ops)))
+            k += 1
             for npeers, avail in ((1, True), (1, False), (2, True)):
                 ops = ["attach a REQ"] + (["attach b REQ"] if npeers == 2 else [])
                 if avail:
@@ -181,6 +195,46 @@ def judge(line, obs, orc):
                         return "REQ recv with a closed peer: %s" % tk
                     owing = False
                     gone = True
+    elif kind == "m":
+        owing = None          # server that owes a reply
+        last = None           # server of the previous accepted request
+        got = {"a": 0, "b": 0}
+        expect_wire = None
+        for op, tk in po:
+            if op[0] == "send":
+                if owing:
+                    if tk != "s=err:ReturnToSender:" + op[1]:
+                        return "out-of-turn send on REQ: %s" % tk
+                    expect_wire = {}
+                else:
+                    if tk != "s=ok":
+                        return "in-turn send on REQ with two servers failed: %s" % tk
+                    expect_wire = {"new": S.enc([b""] + S.frames_of_tok(op[1]))}
+                seen = {}
+            elif op[0] == "wire":
+                seen[op[1]] = tk.split("=", 1)[1]
+                if len(seen) == 2:
+                    if not expect_wire:
+                        if any(v != "-" for v in seen.values()):
+                            return "a refused request was written to a server: %s" % seen
+                    else:
+                        to = [c for c in "ab" if seen[c] != "-"]
+                        if len(to) != 1 or seen[to[0]] != expect_wire["new"]:
+                            return "request not written whole to exactly one server: %s" % seen
+                        if last is not None and to[0] == last:
+                            return ("two consecutive requests went to server %s: the rotation between the two servers was disturbed "
+                                    "(by a refused call in between, if any)" % last)
+                        last = owing = to[0]
+            elif op[0] == "recv":
+                if not owing:
+                    if tk != "r=err:Other":
+                        return "out-of-turn recv on REQ: %s" % tk
+                else:
+                    want = "r=ok:" + W.tok(b"%s%d" % (owing.encode(), got[owing]))
+                    if tk != want:
+                        return "REQ recv returned %s, expected the reply of the server asked: %s" % (tk, want)
+                    got[owing] += 1
+                    owing = None
     elif kind == "g":
         sends = [(op, tk) for op, tk in po if op[0] == "send"]
         wires = [(op, tk) for op, tk in po if op[0] == "wire"]
